@@ -277,9 +277,16 @@ func runC18ClientSchedule(t *testing.T, col *verifsim.Collector, kind string, rt
 	col.Add(kind, kind, true, fmt.Sprintf("CL %d %s %s", len(ops), verifsim.CoqBool(allDone), verifsim.CoqBool(tableEmpty)))
 }
 
-func TestVerif_C18Client(t *testing.T) { //nolint:cyclop
+func TestVerif_C18Client(t *testing.T) { c18ClientCampaign(t, "C18client") }
+
+// the same forced schedules (a slow PacketConn.WriteTo at the k-th transmission; meanwhile a response, Close, another
+// transaction; then the write returns with or without an error) for C12: every transaction completes exactly once - a second
+// completion blocks or panics on the result channel -, every call returns and Close leaves the table empty
+func TestVerif_C12Slow(t *testing.T) { c18ClientCampaign(t, "C12slow") }
+
+func c18ClientCampaign(t *testing.T, colName string) { //nolint:cyclop
 	rng := verifsim.NewRNG(verifsim.Seed() + 1819)
-	col := verifsim.NewCollector("C18client", "C18Check")
+	col := verifsim.NewCollector(colName, "C18Check")
 	col.PerFile = 400
 	rto := 25 * time.Millisecond
 	P := func(id int) c18Op { return c18Op{kind: "perform", id: id} }
